@@ -300,8 +300,11 @@ def it2(ctx, flavours):
                     ent1 = ('f', entry, '1')
 
                     def is_peer(z):
+                        # the stored peer, upgraded from its weak reference -- or the stored handle itself (which of the two is C19's business)
                         z = unwrap_payload(z)
-                        return isinstance(z, tuple) and z[0] == 'call' and z[1].endswith('::WeakNode::upgrade') and _proj_eq(z[2][0], entry, '0')
+                        if isinstance(z, tuple) and z[0] == 'call' and z[1].endswith('::WeakNode::upgrade') and _proj_eq(z[2][0], entry, '0'):
+                            return True
+                        return _proj_eq(z, entry, '0')
 
                     def is_near(z):
                         return strip_payload(z) == NODE
